@@ -461,6 +461,8 @@ def run(ctx):
     # a resumed run continues with the checkpointed generator state
     from ..report import reuse as _reuse
     from . import c11 as _c11
+    _reuse(ctx, _c11.run, ("C11.refit",), "C20refit", "refit rule shared with C11: a preconditioning transform that carries trained weights (and the position of the random stream it "
+           "was seeded on) from one fit to the next holds state that no seed, generator or checkpoint describes: a second run on the same sampler, or a resumed run, differs from a fresh one")
     _reuse(ctx, _c11.run, ("C11.restore",), "C20res", "restore rule shared with C11: without the checkpointed generator state a resumed run draws from a fresh entropy-seeded generator",
            only=lambda f: "rng_state" in f.key)
     # torch flows seed the global torch RNG from their seed argument
@@ -630,6 +632,10 @@ MUTANTS += [
 ]
 MUTANTS += [
     M("a per-fit seed derived with the builtin hash of a labelled tuple", "src/aspire/utils.py", "def copy_array(x, xp: Any = None) -> Array:", "def derive_seed(seed, *labels):\n    return hash((seed, *labels)) % 2**32\n\n\ndef copy_array(x, xp: Any = None) -> Array:", "C20.seed"),
+]
+MUTANTS += [
+    M("flow preconditioning keeps training the flow of the previous fit", "src/aspire/transforms.py", "self.flow = self._FlowClass(\n            dims=len(self.parameters),\n            device=self.device,\n            data_transform=self._data_transform,\n            **self.flow_kwargs,\n        )",
+      "if self.flow is None:\n            self.flow = self._FlowClass(\n                dims=len(self.parameters),\n                device=self.device,\n                data_transform=self._data_transform,\n                **self.flow_kwargs,\n            )", "C20refit.refit"),
 ]
 NEUTRALS = [
     M("debug-only summary of the training data (no draw)", "src/aspire/aspire.py", "history = self.flow.fit(samples.x, **kwargs)", "history = self.flow.fit(samples.x, **kwargs)\n        if logger.isEnabledFor(logging.DEBUG):\n            logger.debug(\"data mean %s\", samples.x.mean(0))"),
